@@ -30,7 +30,7 @@ func SelfTest(c *core.Ctx, args []string) int {
 	type resA struct{ diff string }
 	resA_ := core.ParallelMap(c.Jobs, nW, func(i int) resA {
 		r := core.Stream(c.Seed, "selftest-world", i)
-		proj, _ := genC06World(r)
+		proj, _, _ := genC06World(r)
 		tree := proj.Tree()
 		plan := world.Plan(core.Pick(r, []string{"asc", "desc", "random", "rotate"}), r.Uint64(), 2, 2000+i, 100+i)
 		var ref world.StepResult
@@ -83,7 +83,7 @@ func SelfTest(c *core.Ctx, args []string) int {
 	badC := 0
 	resC := core.ParallelMap(c.Jobs, nW, func(i int) string {
 		r := core.Stream(c.Seed, "selftest-world", i)
-		proj, _ := genC06World(r)
+		proj, _, _ := genC06World(r)
 		tree := proj.Tree()
 		var digests [2]string
 		var exits [2]int
